@@ -335,6 +335,69 @@ func runMesh(c *Ctx, im *Impl, cf *CaseFile, t *topo, perSender int, bigBudget *
 	}
 	WaitFor(8*time.Second, func() bool { recvMu.Lock(); defer recvMu.Unlock(); return len(recvs) >= expected })
 	time.Sleep(150 * time.Millisecond) // anything delivered twice or elsewhere shows up now
+	// ---------- names that do not fit the 8-byte field: refused, nothing delivered to anyone ----------
+	{
+		recvMu.Lock()
+		before := len(recvs)
+		recvMu.Unlock()
+		tapMu.Lock()
+		tapsBefore := len(taps)
+		tapMu.Unlock()
+		type lsend struct {
+			from, fsvc, to, tsvc string
+			err                  error
+		}
+		var ls []lsend
+		for _, src := range t.nodes {
+			sock := listeners[0].pc
+			for _, l := range listeners {
+				if l.node == src && l.svc == "abcdefgh" {
+					sock = l.pc
+				}
+			}
+			for _, dst := range t.nodes { // remote and local
+				for _, n := range overLens {
+					// destination: first 8 bytes name the live listener "abcdefgh" on dst
+					tsvc := overlong(r, "abcdefgh", n)
+					_, err := sock.WriteTo([]byte("overlong "+tsvc[:9]), mesh.Nodes[src].NewAddr(dst, tsvc))
+					ls = append(ls, lsend{src, "abcdefgh", dst, tsvc, err})
+					// source: first 8 bytes name the live listener "abcdefgh" on src
+					fsvc := overlong(r, "abcdefgh", n)
+					err = mesh.Nodes[src].SendMessageWithHopsToLive(fsvc, dst, "abcdefgh", []byte("overlong-src"), consts.MaxHops)
+					ls = append(ls, lsend{src, fsvc, dst, "abcdefgh", err})
+				}
+			}
+			if _, err := mesh.Nodes[src].ListenPacket(overlong(r, "abcdefgh", overLens[r.Intn(len(overLens))])); err == nil {
+				im.Violate("ListenPacket accepts a service name longer than 8 bytes", "overlong-service-listen", t.name)
+			}
+		}
+		time.Sleep(120 * time.Millisecond)
+		accepted := 0
+		for _, x := range ls {
+			im.Count(fmt.Sprintf("overlong %s %q:%x->%q:%x", t.name, x.from, x.fsvc, x.to, x.tsvc), true)
+			im.Hist("mesh:send-with-overlong-service")
+			if x.err == nil {
+				accepted++
+				if accepted <= 2 {
+					im.Violate(fmt.Sprintf("send %q:%q -> %q:%q (a service name of more than 8 bytes) is accepted", x.from, x.fsvc, x.to, x.tsvc), "overlong-service-accepted",
+						map[string]interface{}{"topology": t.name, "from": x.from, "fsvc": x.fsvc, "to": x.to, "tsvc": x.tsvc})
+				}
+			}
+		}
+		recvMu.Lock()
+		for _, d := range recvs[before:] {
+			im.Violate(fmt.Sprintf("listener %q:%q was handed a datagram (%q from %s) that was addressed to a longer service name", d.node, d.svc, string(d.payload[:min(len(d.payload), 18)]), d.from),
+				"mesh-misdelivered:overlong-service", map[string]interface{}{"topology": t.name, "node": d.node, "svc": d.svc, "from": d.from})
+		}
+		recvs = recvs[:before]
+		recvMu.Unlock()
+		tapMu.Lock()
+		if len(taps) > tapsBefore {
+			im.Violate(fmt.Sprintf("%d packets on the wire for sends that must be refused (over-long service name)", len(taps)-tapsBefore), "overlong-service-on-the-wire", t.name)
+		}
+		taps = taps[:tapsBefore]
+		tapMu.Unlock()
+	}
 	for _, l := range listeners {
 		_ = l.pc.Close()
 	}
